@@ -241,6 +241,6 @@ Fixpoint add_stmts (p : prog) (ss : list stmt) : res unit :=
   | s :: r => rbind (add_stmt p s) (fun _ p => add_stmts p r)
   end.
 
-Definition pcap_of (p : prog) : bytes := pcap_ghdr ++ concat (rev (p_out p)).
+Definition pcap_of (p : prog) : bytes := pcap_ghdr ++ concat (frev (p_out p)).
 
 End Interp.
